@@ -106,13 +106,18 @@ TraceNext ==
              /\ Chk(C04_AcksOK, "P", e, "C04_AcksOK")
              /\ Chk(C04_NackedNeverStored', "P", e, "C04_NackedNeverStored")
              /\ Chk(HWMonotoneWhileUp, "P", e, "HWMonotoneWhileUp")
+             \* C01 on the replicated path: whatever the leader packs into its responses, the offsets a
+             \* replica stores are the consecutive run 0, 1, 2, ...
+             /\ Chk(\A r \in R : ~e.st.gap[r], "P", e, "C01_ReplicaGapFree")
              /\ Chk(s.obs.nacks \subseteq n.obs.nacks \/ e.a # "Publish", "P", e, "C04_NoSpuriousNack")
              \* ---- conformance with the action as specified
              /\ Chk(GuardOf(e), "I", e, "guard")
              /\ Chk(s.log = n.log, "I", e, "log")
              /\ Chk(s.hw = n.hw, "I", e, "hw")
              /\ Chk(s.ec = n.ec, "I", e, "ec")
-             /\ Chk(s.isrOff = n.isrOff, "I", e, "isrOff")
+             \* (the replica offsets are only used by a leader; a follower's copy of the map is rebuilt when
+             \* it becomes leader and is not compared)
+             /\ Chk(\A r \in R : s.role[r] = "leader" => s.isrOff[r] = n.isrOff[r], "I", e, "isrOff")
              /\ Chk(s.role = n.role, "I", e, "role")
              /\ Chk(s.up = n.up, "I", e, "up")
              /\ Chk(s.meta = n.meta, "I", e, "meta")
